@@ -19,6 +19,8 @@ CONSTANTS Prefix,      \* prefixes
           Src,         \* source peers, ordered by preference through SrcRank
           SrcRank,     \* [Src -> Nat] smaller = preferred (stands for the decision order)
           Obs,         \* the observing neighbour, as a member of Src (its own routes are never echoed) or "none"
+          Suppress,    \* sources whose routes split horizon keeps from the observer (iBGP non-client to iBGP non-client,
+                       \* across the route-server boundary): like the observer's own routes they are never sent to it
           Cls,         \* attribute classes (exported content)
           Reject,      \* classes the export policy rejects
           SendMax,     \* 1 = plain session, >1 = add-path TX window
@@ -35,11 +37,14 @@ VARIABLE s
 
 Init ==
   s = [ rib    |-> [p \in Prefix |-> {}],
-        hid    |-> [p \in Prefix |-> {}],         \* paths the import policy rejects: [src, lid] - held by the table
+        hid    |-> [p \in Prefix |-> {}],         \* paths the import policy rejects: [src, lid, cls] - held by the table
                                                   \* (they keep the destination and their path id) but never ranked
         did    |-> [p \in Prefix |-> 0],
         nlid   |-> [p \in Prefix |-> 1],          \* next local path id of the destination ("real" mode)
         llgr   |-> {},                            \* LLGR-stale sources
+        irej   |-> FALSE,                         \* the import policy currently also rejects the classes in IRejCls
+        nhbad  |-> {},                            \* sources whose next hop is reported unreachable (every source uses
+                                                  \* its own next hop): their paths stay in the table but are not ranked
         chan   |-> <<>>,
         xmap   |-> {},                            \* << id, pid >> marked as advertised
         reach  |-> {},                            \* pending: [key |-> <<id,pid>>, p, c (content)]
@@ -54,6 +59,11 @@ Ops ==      [k : {"announce"}, src : Src, p : Prefix, cls : Cls]
        \* the source announces (or re-announces) the prefix in a form the import policy rejects
        \cup [k : {"filter"}, src : Src, p : Prefix]
        \cup [k : {"peerdown", "markllgr"}, src : Src]
+       \* next-hop tracking reports the source's next hop unreachable / reachable again
+       \cup [k : {"nhdown", "nhup"}, src : Src]
+       \* the import policy is changed (it starts / stops rejecting the classes IRejCls): nothing happens to the table
+       \* until a soft reset IN of a source re-evaluates that source's paths
+       \cup [k : {"impflip"}] \cup [k : {"softin"}, src : Src]
        \cup [k : {"deliver", "flush", "refresh", "newsession"}]
 
 Has(st, p, src) == \E x \in st.rib[p] : x.src = src
@@ -65,6 +75,10 @@ Enabled(st, op) ==
     [] op.k = "filter"   -> "filter" \in OpKinds
     [] op.k = "peerdown" -> \E p \in Prefix : Holds(st, p, op.src)
     [] op.k = "markllgr" -> op.src \notin st.llgr /\ (\E p \in Prefix : Has(st, p, op.src))
+    [] op.k = "nhdown"   -> "nhflap" \in OpKinds /\ op.src \notin st.nhbad
+    [] op.k = "nhup"     -> "nhflap" \in OpKinds /\ op.src \in st.nhbad
+    [] op.k = "impflip"  -> "softin" \in OpKinds
+    [] op.k = "softin"   -> "softin" \in OpKinds /\ (\E p \in Prefix : Holds(st, p, op.src))
     [] op.k = "deliver"  -> st.chan # <<>>
     [] op.k = "flush"    -> st.reach # {} \/ st.unrch # {} \/ st.buf # {}
     [] OTHER -> TRUE
@@ -84,7 +98,9 @@ SortSet(st, S) ==
   IF S = {} THEN <<>>
   ELSE LET m == CHOOSE x \in S : \A y \in S : RankKey(st, x) <= RankKey(st, y)
        IN << m >> \o SortSet(st, S \ {m})
-Ranked(st, p) == SortSet(st, st.rib[p])
+\* paths whose next hop is unreachable stay in the table (destination, path id) but are not candidates
+Live(st, p)   == {x \in st.rib[p] : x.src \notin st.nhbad}
+Ranked(st, p) == SortSet(st, Live(st, p))
 
 Note(p, id, bc, ac, rep, paths) == [p |-> p, id |-> id, bc |-> bc, ac |-> ac, rep |-> rep, paths |-> paths]
 
@@ -117,30 +133,36 @@ DoAnnounce(st, op) ==
 
 \* the source's path is (re-)inserted in a form the import policy rejects: it leaves the ranking but stays in the table.
 \* The change is announced only if an accepted path was replaced (nothing changes for anybody otherwise).
+\* classes the import policy rejects while `irej` is on (the `filter` operation's class "f" is always rejected)
+IRejCls == {"y"}
+ImportRejects(st, cls) == cls = "f" \/ (st.irej /\ cls \in IRejCls)
+
 DoFilter(st, op) ==
   LET had  == Holds(st, op.p, op.src)
       wasIn == Has(st, op.p, op.src)
       lid  == LidFor(st, op.p, op.src)
       id   == IF st.did[op.p] = 0 THEN FreeId(st) ELSE st.did[op.p]
       st2  == [st EXCEPT !.rib[op.p] = {y \in @ : y.src # op.src}, !.did[op.p] = id,
-                         !.hid[op.p] = {y \in @ : y.src # op.src} \cup {[src |-> op.src, lid |-> lid]},
+                         !.hid[op.p] = {y \in @ : y.src # op.src} \cup {[src |-> op.src, lid |-> lid, cls |-> op.cls]},
                          !.nlid[op.p] = IF LidMode = "abstract" \/ had THEN @ ELSE lid + 1]
       n    == Note(op.p, id, BestKey(st, op.p) # BestKey(st2, op.p), TRUE, lid, Ranked(st2, op.p))
   IN IF wasIn THEN [st2 EXCEPT !.chan = Append(@, n)] ELSE st2
 
 \* remove the path of `src` from prefix p (one notification)
-RemoveOne(st, p, src) ==
+RemoveOne(st, p, src, viaDrop) ==
   LET st2 == [st EXCEPT !.rib[p] = {y \in @ : y.src # src}, !.hid[p] = {y \in @ : y.src # src}]
       st3 == [st2 EXCEPT !.did[p] = IF st2.rib[p] = {} /\ st2.hid[p] = {} THEN 0 ELSE @]
-      n   == Note(p, st.did[p], BestKey(st, p) # BestKey(st2, p), TRUE, 0, Ranked(st2, p))
-  IN \* the removal of a rejected path is nobody's business
-     IF Has(st, p, src) THEN [st3 EXCEPT !.chan = Append(@, n)] ELSE st3
+      \* the removal of a destination's last path always counts as a change of the best path
+      n   == Note(p, st.did[p], (st2.rib[p] = {} /\ st2.hid[p] = {}) \/ BestKey(st, p) # BestKey(st2, p), TRUE, 0, Ranked(st2, p))
+  IN \* the removal of a rejected path is nobody's business; a peer drop also keeps quiet about a path that was not a
+     \* candidate because its next hop is unreachable (a withdrawal of such a path is announced)
+     IF Has(st, p, src) /\ (viaDrop => src \notin st.nhbad) THEN [st3 EXCEPT !.chan = Append(@, n)] ELSE st3
 
 RECURSIVE RemoveAll(_, _, _)
 RemoveAll(st, ps, src) ==
   IF ps = {} THEN st
   ELSE LET p == CHOOSE x \in ps : TRUE IN
-       RemoveAll(IF Holds(st, p, src) THEN RemoveOne(st, p, src) ELSE st, ps \ {p}, src)
+       RemoveAll(IF Holds(st, p, src) THEN RemoveOne(st, p, src, TRUE) ELSE st, ps \ {p}, src)
 
 \* LLGR marking of a source: its paths sink in the ranking and their exported content gains
 \* LLGR_STALE; every prefix holding a path of that source is re-announced.  `old` is the
@@ -161,10 +183,35 @@ NotifyAll(old, st, ps, src) ==
                   ELSE st
        IN NotifyAll(old, st2, ps \ {p}, src)
 
+\* a next-hop reachability report: every destination holding a path of the source (ranked or rejected by the import
+\* policy - the flag is kept on those too) is re-announced
+RECURSIVE NhNotify(_, _, _, _)
+NhNotify(old, st, ps, src) ==
+  IF ps = {} THEN st
+  ELSE LET p == CHOOSE x \in ps : TRUE
+           st2 == IF Holds(st, p, src)
+                  THEN [st EXCEPT !.chan = Append(@, Note(p, st.did[p], BestKey(old, p) # BestKey(st, p), TRUE, 0, Ranked(st, p)))]
+                  ELSE st
+       IN NhNotify(old, st2, ps \ {p}, src)
+
+\* (re-)insertion of a path of class `cls`: accepted or rejected by the import policy as it is now
+Insert(st, src, p, cls) ==
+  IF ImportRejects(st, cls) THEN DoFilter(st, [src |-> src, p |-> p, cls |-> cls])
+  ELSE DoAnnounce(st, [src |-> src, p |-> p, cls |-> cls])
+
+\* soft reset IN: every path of the source goes through the import policy again and is re-inserted with the outcome
+HeldCls(st, p, src) == IF Has(st, p, src) THEN PathOf(st, p, src).cls ELSE HidOf(st, p, src).cls
+RECURSIVE SoftIn(_, _, _)
+SoftIn(st, ps, src) ==
+  IF ps = {} THEN st
+  ELSE LET p == CHOOSE x \in ps : TRUE IN
+       SoftIn(IF Holds(st, p, src) THEN Insert(st, src, p, HeldCls(st, p, src)) ELSE st, ps \ {p}, src)
+
 ---------------------------------------------------------------------------
 \* Neighbour side: process one notification (process_nlri_change)
 
-Visible(st, paths) == SelectSeq(paths, LAMBDA x : x.src # Obs)
+Hidden == {Obs} \cup Suppress
+Visible(st, paths) == SelectSeq(paths, LAMBDA x : x.src \notin Hidden)
 Accepted(x) == x.cls \notin Reject
 Take(q, n) == IF Len(q) <= n THEN q ELSE SubSeq(q, 1, n)
 
@@ -192,7 +239,7 @@ Process(st, n) ==
   IF SendMax = 1 THEN
     IF ~n.bc THEN st
     ELSE LET best == IF n.paths = <<>> THEN <<>> ELSE << n.paths[1] >>
-             ok   == best # <<>> /\ best[1].src # Obs /\ Accepted(best[1])
+             ok   == best # <<>> /\ best[1].src \notin Hidden /\ Accepted(best[1])
          IN IF ok THEN QReach(st, n.id, 0, n.p, Content(st, best[1]))
             ELSE IF XKey(n.id, n.p, 0) \in st.xmap THEN QUnreach(st, n.id, 0, n.p) ELSE st
   ELSE
@@ -219,7 +266,7 @@ Walk(st, ps) ==
   IF ps = {} THEN st
   ELSE LET p == CHOOSE x \in ps : TRUE
            q == IF "DumpTruncatesBeforeFilter" \in Dev THEN Take(Ranked(st, p), SendMax) ELSE Ranked(st, p)
-       IN Walk(IF st.rib[p] = {} THEN st ELSE Process(st, Note(p, st.did[p], TRUE, TRUE, 0, q)), ps \ {p})
+       IN Walk(IF Live(st, p) = {} THEN st ELSE Process(st, Note(p, st.did[p], TRUE, TRUE, 0, q)), ps \ {p})
 
 \* order on the wire: the buffered initial dump first, then withdrawals, then announcements
 DoFlush(st) ==
@@ -231,11 +278,15 @@ DoFlush(st) ==
   IN [st EXCEPT !.mirror = m2, !.reach = {}, !.unrch = {}, !.buf = {}]
 
 Step(st, op) ==
-  CASE op.k = "announce" -> DoAnnounce(st, op)
-    [] op.k = "withdraw" -> RemoveOne(st, op.p, op.src)
-    [] op.k = "filter"   -> DoFilter(st, op)
+  CASE op.k = "announce" -> Insert(st, op.src, op.p, op.cls)
+    [] op.k = "withdraw" -> RemoveOne(st, op.p, op.src, FALSE)
+    [] op.k = "filter"   -> DoFilter(st, [src |-> op.src, p |-> op.p, cls |-> "f"])
+    [] op.k = "impflip"  -> [st EXCEPT !.irej = ~@]
+    [] op.k = "softin"   -> SoftIn(st, Prefix, op.src)
     [] op.k = "peerdown" -> [RemoveAll(st, Prefix, op.src) EXCEPT !.llgr = @ \ {op.src}]
     [] op.k = "markllgr" -> NotifyAll(st, [st EXCEPT !.llgr = @ \cup {op.src}], Prefix, op.src)
+    [] op.k = "nhdown"   -> NhNotify(st, [st EXCEPT !.nhbad = @ \cup {op.src}], Prefix, op.src)
+    [] op.k = "nhup"     -> NhNotify(st, [st EXCEPT !.nhbad = @ \ {op.src}], Prefix, op.src)
     [] op.k = "deliver"  -> Process([st EXCEPT !.chan = Tail(@)], Head(st.chan))
     [] op.k = "flush"    -> DoFlush(st)
     [] op.k = "refresh"  -> Walk(st, Prefix)
@@ -257,7 +308,7 @@ FreshDump(st) ==
         q   == IF "DumpTruncatesBeforeFilter" \in Dev
                THEN Visible(st, Take(r, SendMax)) ELSE Visible(st, r)
         top == IF SendMax = 1
-               THEN (IF r # <<>> /\ r[1].src # Obs /\ Accepted(r[1]) THEN << r[1] >> ELSE <<>>)
+               THEN (IF r # <<>> /\ r[1].src \notin Hidden /\ Accepted(r[1]) THEN << r[1] >> ELSE <<>>)
                ELSE SelectSeq(Take(q, SendMax), Accepted)
     IN {[p |-> p, pid |-> IF SendMax = 1 THEN 0 ELSE top[i].lid, c |-> Content(st, top[i])] : i \in 1..Len(top)}
     : p \in Prefix }
